@@ -606,7 +606,7 @@ pub async fn refresh_node_registry(
                     );
                     service.on_start(Some(pid), full_refresh).await?;
                 }
-                Err(_) => {
+                Err(ServiceError::ServiceProcessNotFound(_)) => {
                     match service.status() {
                         ServiceStatus::Added => {
                             // If the service is still at `Added` status, there hasn't been an attempt
@@ -630,6 +630,14 @@ pub async fn refresh_node_registry(
                             service.on_stop().await?;
                         }
                     }
+                }
+                Err(err) => {
+                    // The lookup itself failed, which says nothing about the process: keep the recorded
+                    // state rather than marking a service whose process may be alive as stopped.
+                    warn!(
+                        "Could not determine whether {} is running, keeping its recorded status: {err}",
+                        service.service_data.service_name
+                    );
                 }
             }
         }
